@@ -45,7 +45,7 @@ ACTNUM = {a: i for i, a in enumerate(ACTIONS)}   # Server Command Reference
 CONV = {'addToHead': 'head', 'addToTail': 'tail', 'addBefore': 'before',
         'addAfter': 'after', 'addReplace': 'replace'}
 CREATE_CMD = {'Synth': '/s_new', 'Group': '/g_new', 'ParGroup': '/p_new'}
-PER_CLIENT = 16   # buffers, control buses and private audio buses per client
+PER_CLIENT = 32   # buffers, control buses and private audio buses per client
 DEFNAME = 'c17def'
 PATH = '/nonexistent/c17.wav'
 
